@@ -256,19 +256,45 @@ class FsFaults:
                 os._exit(CRASH_CODE)
             return fd
         os.open = os_open
-        for name in ("remove", "unlink", "replace", "rename", "chmod", "fsync", "truncate", "link", "symlink", "rmdir",
-                     "mkdir", "utime"):
+        for name in SIMPLE_OPS:
             s["os." + name] = getattr(os, name)
             setattr(os, name, self._simple("os." + name, getattr(os, name)))
+        s["os.write"] = os.write
+        real_write = os.write
+
+        def os_write(fd, data):
+            if not faults.active:
+                return real_write(fd, data)
+            idx = faults.op("write", f"fd{fd}", len(data))
+            act = faults.action(idx)
+            if act is None:
+                return real_write(fd, data)
+            if act[0] == "crash-before":
+                os._exit(CRASH_CODE)
+            if act[0] == "error":
+                raise OSError(act[1], os.strerror(act[1]))
+            if act[0] in ("crash-after-bytes", "short-then-error"):
+                n = min(act[1] if act[0] == "crash-after-bytes" else act[2], len(data))
+                real_write(fd, bytes(data)[:n])
+                if act[0] == "crash-after-bytes":
+                    os._exit(CRASH_CODE)
+                raise OSError(act[1], os.strerror(act[1]))
+            r = real_write(fd, data)
+            if act[0] == "crash-after":
+                os._exit(CRASH_CODE)
+            return r
+        os.write = os_write
 
     def uninstall(self):
         s = self.saved
         builtins.open = s["builtins.open"]
         io.open = s["io.open"]
         os.open = s["os.open"]
-        for name in ("remove", "unlink", "replace", "rename", "chmod", "fsync", "truncate", "link", "symlink", "rmdir",
-                     "mkdir", "utime"):
+        for name in SIMPLE_OPS:
             setattr(os, name, s["os." + name])
+        os.write = s["os.write"]
 
 
+SIMPLE_OPS = ("remove", "unlink", "replace", "rename", "chmod", "fchmod", "fchown", "chown", "fsync", "fdatasync",
+              "truncate", "ftruncate", "link", "symlink", "rmdir", "mkdir", "utime")
 ERRNOS = {"EACCES": errno.EACCES, "ENOSPC": errno.ENOSPC, "EIO": errno.EIO}
